@@ -84,7 +84,22 @@ def eval_closed_form(expr, n, subs):
         v = v.doit()
     except Exception:
         pass
-    return to_rational(v)
+    out = to_rational(v)
+    if out[0] == "undefined" and subs:
+        # 0/0 at this parameter point: report the (iterated) limit as well, so that the caller can tell a
+        # removable singularity of a parametric closed form from a wrong value
+        try:
+            w = expr.xreplace(rep)
+            for s in sorted(w.free_symbols, key=lambda z: z.name):
+                if s.name in subs:
+                    f = Fr(subs[s.name])
+                    w = sympy.limit(w, s, sympy.Rational(f.numerator, f.denominator))
+            lim = to_rational(w)
+            if lim[0] == "q":
+                return ("undefined-limit", lim[1])
+        except Exception:
+            pass
+    return out
 
 
 def mono_expr(mono):
@@ -170,4 +185,79 @@ def analyze(text, goals, subs=None, nmax=4, settings=None, force_cyclic=False, w
             g["error"] = _err(e, "solve")
         res["goals"].append(g)
     _reset_settings()
+    return res
+
+
+def cli_goals(text, goal_strs, at_n=-1, extra_args=None):
+    """Runs the real CLI path in-process: ArgumentParser -> ActionFactory -> action(file); returns the printed
+    lines (colour codes stripped)."""
+    import contextlib
+    import io
+    import os
+    import re
+    import sys as _sys
+    import tempfile
+    _reset_settings()
+    from cli import ArgumentParser
+    from cli.actions import ActionFactory
+    out = {"lines": [], "error": None}
+    with tempfile.TemporaryDirectory() as td:
+        path = os.path.join(td, "prog.prob")
+        with open(path, "w") as fh:
+            fh.write(text)
+        argv = [path, "--goals"] + list(goal_strs)
+        if at_n >= 0:
+            argv += ["--at_n", str(at_n)]
+        argv += list(extra_args or [])
+        buf = io.StringIO()
+        old_argv = _sys.argv
+        _sys.argv = ["polar.py"] + argv
+        try:
+            with contextlib.redirect_stdout(buf):
+                args = ArgumentParser().parse_args()
+                action = ActionFactory.create_action(args)
+                action(path)
+        except SystemExit as e:
+            out["error"] = {"stage": "cli", "etype": "SystemExit", "message": str(e), "file": "", "func": ""}
+        except Exception as e:  # noqa
+            out["error"] = _err(e, "cli")
+        finally:
+            _sys.argv = old_argv
+            _reset_settings()
+        txt = re.sub(r"\x1b\[[0-9;]*m", "", buf.getvalue())
+        out["lines"] = [l for l in txt.split("\n") if l.strip()]
+    return out
+
+
+def eval_printed(expr_str, n, subs=None):
+    """value of a printed closed form (text) at n"""
+    import sympy
+    e = sympy.sympify(expr_str, locals={"n": sympy.Symbol("n")})
+    return eval_closed_form(e, n, subs)
+
+
+def cli_goals_eval(text, goal_strs, at_n, subs=None, nmax=6):
+    """cli_goals + parsing of the lines 'E(M) = v0; v1; ...; formula' and 'E(M | n=k) = value ≅ float'"""
+    import re
+    res = cli_goals(text, goal_strs, at_n)
+    parsed = []
+    for l in res["lines"]:
+        m = re.match(r"^(E\((?P<g1>[^|]*?)\)|(?P<g2>[A-Za-z_][A-Za-z_0-9*]*)) = (?P<rhs>.*)$", l)
+        m2 = re.match(r"^(E\((?P<g>[^|]*?) \| n=(?P<k>\d+)\)|(?P<g3>[^ ]+) \| n=(?P<k3>\d+)) = (?P<val>.*?) ≅ (?P<fl>.*)$", l)
+        try:
+            if m2:
+                goal = (m2.group("g") or m2.group("g3")).strip()
+                k = int(m2.group("k") or m2.group("k3"))
+                parsed.append({"kind": "at_n", "goal": goal, "n": k, "value": eval_printed(m2.group("val"), 0, subs),
+                               "raw": l})
+            elif m:
+                goal = (m.group("g1") or m.group("g2")).strip()
+                parts = [p.strip() for p in m.group("rhs").split(";")]
+                specials = [eval_printed(p, i, subs) for i, p in enumerate(parts[:-1])]
+                general = [eval_printed(parts[-1], n, subs) for n in range(len(parts) - 1, nmax + 1)]
+                parsed.append({"kind": "closed_form", "goal": goal, "specials": specials, "general": general,
+                               "first_general_n": len(parts) - 1, "raw": l[:400]})
+        except Exception as ex:  # noqa
+            parsed.append({"kind": "unparsed", "raw": l[:300], "why": str(ex)[:100]})
+    res["parsed"] = parsed
     return res
